@@ -92,9 +92,12 @@ def coq_extra():
     # was recognised, and Properties_C18.v depends on it.  When a generated text is new, nothing
     # compiled against the old one may survive, and the file is compiled explicitly so that its
     # failure is recorded by fw.coq_check.
-    if stale("ThreadImpl", info["changed"]):
+    if stale("ThreadImpl", info["changed"]) or not os.path.exists(os.path.join(th, "ThreadProofs.vo")):
         drop("ThreadImpl", "ThreadProofs", "ThreadImplCheck", "Properties_C18")
-        files.append("theories/ThreadImpl.v")
+        # the proofs are listed too: they are then re-checked against the new text whatever the
+        # state of make's dependency information (several checks share coq/Makefile.coq), and the
+        # .vo time stamps end up in dependency order
+        files += ["theories/ThreadImpl.v", "theories/ThreadProofs.v"]
     if files or not ok or stale("ThreadImplCheck", info["check_changed"]):
         drop("ThreadImplCheck", "Properties_C18")
         files.append("theories/ThreadImplCheck.v")
@@ -166,7 +169,7 @@ def gen(rng, tier):
         out.append(("thr rc 16 100000 1 race 1 %d" % rng.randrange(1, 1 << 20), {"kind": "rc-race"}))
     # --- racing first use of the key hash
     for n in (2, 4, 8, 16):
-        for _ in range(4 if quick else 60):
+        for _ in range(3 if quick else 60):
             out.append(("thr seed %d %d %s" % (n, rng.choice([0, 1, 5]), rand_key(rng)), {"kind": "seed"}))
     # --- the same with the random source scripted (the theorems hold for EVERY source): the
     #     sentinel -1 on the first draw(s), on all draws of the racing phase, in the middle;
@@ -174,7 +177,7 @@ def gen(rng, tier):
     for n, r, key, dr in SEEDX_FIXED:
         out.append(("thr seedx %d %d %s %s" % (n, r, key, dr), {"kind": "seedx"}))
     for n in (1, 2, 4, 8, 16):
-        for _ in range(2 if quick else 24):
+        for _ in range(1 if quick else 24):
             r = rng.choice([0, 1, 3])
             out.append(("thr seedx %d %d %s %s" % (n, r, rand_key(rng), rand_draws(rng, n, r)), {"kind": "seedx"}))
     # --- disjoint trees
